@@ -36,6 +36,9 @@ EXTENDS Integers, Sequences, FiniteSets, TLC, Json
 CONSTANTS Families,    \* subset of {"roaring", "pql", "msg", "env"}: generator families of this run
           Entries,     \* roaring family: entry points enumerated with Shapes and Tails
           SrvEntries,  \* roaring family: entry points enumerated with SrvShapes (no tails)
+          CtlEntries,  \* roaring family: entry points that get (at least) the CONTROL cases:
+                       \* the valid encoding of every format and one certainly malformed
+                       \* one - independent of any sampling (SrvShapes, no tails)
           PqlEntries, MsgEntries,
           EnvEntries,  \* envelope family: entry points of import-roaring requests
           Formats,     \* subset of {"pilosa","official","official_runs"}
@@ -148,6 +151,9 @@ TailCors(x) ==
     UNION {UNION {{Cor("op", fld, j, v) : v \in OpValsOf(fld)} : fld \in OpFields(x.tail[j])}
            : j \in 1..Len(x.tail)}
 
+\* the certainly malformed control: three bytes are no roaring data in any format
+CtlCor == Cor("trunc", "abs", 3, "at")
+
 Corruptions(x) == FieldCors(x) \cup TruncCors(x) \cup KeyCors(x) \cup TailCors(x)
 
 -----------------------------------------------------------------------------
@@ -157,7 +163,7 @@ Corruptions(x) == FieldCors(x) \cup TruncCors(x) \cup KeyCors(x) \cup TailCors(x
 \* simulation step has few successors; BFS visits the same set of cases.
 RoaringEntry ==
     /\ stage = "base"
-    /\ \E e \in Entries \cup SrvEntries :
+    /\ \E e \in Entries \cup SrvEntries \cup CtlEntries :
           c' = [NoCase EXCEPT !.fam = "roaring", !.entry = e]
     /\ stage' = "fmt"
 
@@ -282,7 +288,7 @@ Corrupt ==
     /\ stage = "cor"
     /\ \/ /\ c.fam = "roaring"
           /\ Len(c.cors) < MaxCors
-          /\ \E k \in Corruptions(c) :
+          /\ \E k \in IF c.entry \in Entries \cup SrvEntries THEN Corruptions(c) ELSE {CtlCor} :
                 /\ \A j \in 1..Len(c.cors) : c.cors[j] # k
                 /\ c' = [c EXCEPT !.cors = Append(@, k)]
        \/ /\ c.fam = "pql"
@@ -309,7 +315,7 @@ GenNext == Base \/ Corrupt \/ Finish
 MustAccept(x) == x.fam = "roaring" /\ x.cors = << >>
 CaseOK == hist # << >> =>
             /\ hist[1].fam \in {"roaring", "pql", "msg", "env"}
-            /\ hist[1].entry \in Entries \cup SrvEntries \cup PqlEntries \cup MsgEntries \cup EnvEntries
+            /\ hist[1].entry \in Entries \cup SrvEntries \cup CtlEntries \cup PqlEntries \cup MsgEntries \cup EnvEntries
             /\ (hist[1].fam = "env" => Len(hist[1].views) <= 2 /\ (hist[1].form = "nilmap" => hist[1].views = << >>))
             /\ (hist[1].fam = "roaring" =>
                   /\ ShapeOK(hist[1].fmt, hist[1].shape)
